@@ -563,3 +563,16 @@ func Aborting() bool {
 	s := Cur
 	return s != nil && s.aborting
 }
+
+// SortedStringKeys returns the keys of a map whose key type has a string
+// underlying type, sorted.  Inserted by vrewrite (sorted_range) so that map
+// iteration order — which Go randomises — is deterministic under exploration.
+func SortedStringKeys(m interface{}) []string {
+	v := reflect.ValueOf(m)
+	keys := make([]string, 0, v.Len())
+	for _, k := range v.MapKeys() {
+		keys = append(keys, k.String())
+	}
+	sort.Strings(keys)
+	return keys
+}
